@@ -163,6 +163,11 @@ fn frames() -> Vec<(String, Frame)> {
     v.push(("Error(empty message, code 0)".into(), Frame::Error(ErrorPayload { code: 0, message: Bytes::new() })));
     v.push(("RegisterPublisher(no operations)".into(), Frame::RegisterPublisher(PublisherPayload { topic: topic(), retention_policy: 0, operations: vec![] })));
     v.push(("BatchMessage(empty)".into(), Frame::BatchMessage(Bytes::new())));
+    for (ns, t) in [("selium", "proxy"), ("a", "b"), ("", ""), ("ns with space", "t/slash")] {
+        let tn = TopicName::_create_unchecked(ns, t);
+        v.push((format!("RegisterReplier(topic built unchecked: {ns:?}/{t:?})"), Frame::RegisterReplier(ReplierPayload { topic: tn.clone() })));
+        v.push((format!("RegisterPublisher(topic built unchecked: {ns:?}/{t:?})"), Frame::RegisterPublisher(PublisherPayload { topic: tn, retention_policy: 1, operations: vec![] })));
+    }
     v.push(("Message(5 bytes, non-ASCII header names and values)".into(), Frame::Message(MessagePayload { headers: Some(HashMap::from([("origin".to_string(), "Z\u{fc}rich \u{2708} \u{6771}\u{4eac}".to_string()), ("cl\u{e9}".to_string(), "\u{1f600}".to_string())])), message: Bytes::from_static(b"hello") })));
     v
 }
@@ -311,6 +316,30 @@ fn codec_cases() -> Vec<Case> {
                 Ok(())
             }),
         });
+    }
+    // a small Message frame whose header map announces far more entries than the frame can hold: an error, not a crash or a huge allocation
+    for entries in [u64::MAX, 1u64 << 62, 1 << 60, 1 << 20] {
+        for trailing in [0usize, 1, 16] {
+            out.push(Case {
+                name: format!("Message frame of {} body bytes announcing {entries} headers", 9 + trailing),
+                props: "C06",
+                run: Box::new(move || {
+                    let mut body = BytesMut::new();
+                    body.put_u8(1); // Some(headers)
+                    body.put_u64_le(entries);
+                    body.extend_from_slice(&vec![0u8; trailing]);
+                    let mut buf = BytesMut::new();
+                    buf.put_u64(body.len() as u64);
+                    buf.put_u8(4);
+                    buf.extend_from_slice(&body);
+                    match MessageCodec.decode(&mut buf) {
+                        Err(_) => Ok(()),
+                        Ok(Some(Frame::Message(p))) if p.headers.as_ref().map_or(0, |h| h.len() as u64) < entries => Err("decoded to a message with fewer headers than announced".into()),
+                        Ok(_) => Ok(()),
+                    }
+                }),
+            });
+        }
     }
     // the decoder refuses an over-limit prefix as soon as it has the header, without buffering
     for over in [LIMIT as u64 + 1, 1 << 32, u64::MAX] {
